@@ -59,6 +59,11 @@ class Cls:
         return [ast.unparse(b) for b in self.node.bases]
 
 
+def same_fn(a, b) -> bool:
+    """The same function of the program (a Func and its helper-inlined copy are the same function)."""
+    return a is b or (a is not None and b is not None and a.mod.rel == b.mod.rel and a.qual == b.qual)
+
+
 class Module:
     def __init__(self, rel: str, src: str, line_offset: int = 0, virtual: bool = False):
         self.rel = rel                  # path relative to the repo root (virtual modules: "<file>#NAME")
@@ -305,8 +310,17 @@ class Program:
             return cand[0]
         return rel
 
-    def fn(self, rel: str, qual: str) -> Func:
-        """Locate a function by file and qualified name; falls back to a unique match anywhere in the package."""
+    def fn(self, rel: str, qual: str, raw: bool = False) -> Func:
+        """Locate a function by file and qualified name; falls back to a unique match anywhere in the package.
+        Unless `raw`, the function is returned with its private single-purpose helpers inlined at statement level
+        (util.inline_helpers): "extract method" is the most common refactoring and changes nothing a rule cares about."""
+        f = self._fn_raw(rel, qual)
+        if raw:
+            return f
+        from .util import inline_helpers
+        return inline_helpers(self, f)
+
+    def _fn_raw(self, rel: str, qual: str) -> Func:
         rel = self._norm(rel)
         m = self.modules.get(rel)
         if m and qual in m.funcs:
